@@ -3,6 +3,7 @@ package p_lru
 import (
 	"errors"
 	"fmt"
+	"os"
 	"runtime"
 	"sort"
 	"sync"
@@ -85,7 +86,8 @@ type xrun struct {
 	inGet   map[string]int
 	midMut  bool // Remove/Clear/eviction ran between a creation's start and its insertion
 	// free mode
-	free bool
+	free     bool
+	testName string
 }
 
 func xKeyName(i int) string { return string(rune('a' + i)) }
@@ -177,10 +179,12 @@ func (x *xrun) do(w int, op XOp) {
 	x.mu.Unlock()
 	defer func() {
 		if p := recover(); p != nil {
-			x.mu.Lock()
-			x.setViol("lru:panic", "worker %d: %s(%s) panicked: %v", w, op.K, rec.Key, p)
-			delete(x.cur, id)
-			x.mu.Unlock()
+			// a panic inside the cache usually leaves its mutex locked: nothing can be run to completion in this
+			// process any more, so the verdict is put on record at once and the process ends
+			v := vstat.V("lru:panic", "worker %d: %s(%s) panicked: %v", w, op.K, rec.Key, p)
+			vstat.For("C09").Record(x.testName, x.c, v)
+			fmt.Printf("VERIF-VIOLATION property=C09 test=%s sig=%s :: %s\n", x.testName, v.Sig, v.Msg)
+			os.Exit(3)
 		}
 	}()
 	rec.Call = x.stamp.Add(1)
@@ -215,7 +219,7 @@ func (x *xrun) do(w int, op XOp) {
 }
 
 func newXrun(c XCase, free bool) (*xrun, error) {
-	x := &xrun{c: c, free: free, cur: map[uint64]*XRec{}, inFl: map[string]int{}, created: map[int]string{}, deleted: map[int]int{},
+	x := &xrun{c: c, free: free, testName: map[bool]string{false: "TestC09Controlled", true: "TestC09Free"}[free], cur: map[uint64]*XRec{}, inFl: map[string]int{}, created: map[int]string{}, deleted: map[int]int{},
 		gates: map[string]chan bool{}, inGet: map[string]int{}}
 	cache, err := lru.NewCache[string, int](c.Cap, x.create, x.onDelete)
 	x.cache = cache
